@@ -454,6 +454,26 @@ def rule_puller(model):
                 r.instance(fi.where, n, 'owner class')
                 # outside __init__ the iterator is only advanced, and what
                 # it yields is stored (decided per function below)
+    # who may touch the wrapped iterator: the constructor and the element
+    # reader (with the helpers only it calls); every other way to the
+    # elements (iteration, length) goes through the element reader, so the
+    # cached prefix is replayed and the position is shared
+    owners = {init.where} | {f.where for f in model.closure(gi)}
+    for fi in cls.methods.values():
+        if fi.where in owners:
+            continue
+        touched = [n for n in own_nodes(fi.node)
+                   if isinstance(n, ast.Attribute) and n.attr == it_attr
+                   and isinstance(n.value, ast.Name) and n.value.id == 'self']
+        if touched and not any(
+                c.where == fi.where for g in model.closure(gi)
+                for c in [g]):
+            r.finding(fi.where, touched[0], f'{fi.name}() reads the wrapped '
+                      'iterator itself instead of going through the element '
+                      'reader: elements already fetched (the emptiness probe '
+                      'of dtml-in fetches the first) are not replayed, and '
+                      'two walkers advance one iterator',
+                      node=touched[0], ctx=fi)
     for fi in cls.methods.values():
         if fi is init:
             continue
